@@ -1,2 +1,11 @@
-import Adsg.Proofs.Closure
-#print axioms Adsg.mem_closure_iff_reach
+import Adsg.Props.C03
+#print axioms Adsg.C03.corrected_in_range
+#print axioms Adsg.C03.decode_agrees_ref
+#print axioms Adsg.C03.decodeRef_idempotent
+#print axioms Adsg.C03.decode_idempotent_partial
+#print axioms Adsg.C03.decode_activeness_not_idempotent
+#print axioms Adsg.C03.corrected_determines_design
+#print axioms Adsg.C03.design_determines_corrected
+#print axioms Adsg.C03.sel_describes
+#print axioms Adsg.C03.selected_option_wired
+#print axioms Adsg.C03.dv_describes
